@@ -249,7 +249,7 @@ def main():
     if ck.tier == 'thorough' and ok:
         ck.leanchecker(['BctVerif.Props.C09', 'BctVerif.Model.Cluster'])
     if ck.replay:
-        cases = [json.load(open(ck.replay))['case']['case']]
+        cases = cc.replay_cases(ck.replay)
     else:
         cases = gen_cases(ck.rs, ck.tier)
     results = pmap(run_case, cases)
@@ -309,4 +309,4 @@ def main():
 
 
 if __name__ == '__main__':
-    main()
+    cc.guarded(main)
